@@ -511,3 +511,7 @@ func VerifC03_IngressStepShare_nginx()   { c03IngressShare("nginx") }
 func VerifC03_IngressStepShare_alb()     { c03IngressShare("aliyun-alb") }
 func VerifC03_IngressStepShare_higress() { c03IngressShare("higress") }
 func VerifC03_IngressStepShare_mse()     { c03IngressShare("mse") }
+
+// C04: the Ingress provider's Finalise really withdraws the canary Ingress (named after the *Ingress*, whatever the
+// Services are called) before it lets the clean-up go on to delete the canary Service (same obligations as C14's).
+func VerifC04_IngressFinaliseWithdrawsCanary() { VerifC14_Finalise() }
